@@ -3,6 +3,7 @@ package checks
 import (
 	"bytes"
 	"context"
+	"database/sql"
 	"fmt"
 	"io"
 	"strings"
@@ -65,6 +66,20 @@ func c36Merge(scripts [][]string, emit func([]c36Event)) {
 	rec()
 }
 
+// c36DB records the read-only transactions begun on the database.
+type c36DB struct {
+	database.Database
+	onBegin func(*sql.Tx)
+}
+
+func (d *c36DB) BeginTx(ctx context.Context, opts *sql.TxOptions) (*database.TxController, error) {
+	tx, err := d.Database.BeginTx(ctx, opts)
+	if err == nil && opts != nil && opts.ReadOnly {
+		d.onBegin(tx.SqlTx())
+	}
+	return tx, err
+}
+
 func TestC36(t *testing.T) {
 	run := ev.NewRun("C36", "model_checking")
 	run.Assumptions = []string{"sequential orders of Read/Close over the readers of one GetObject (the concurrent decrement of the reader counter is a single atomic.AddInt64 and is not explored separately)",
@@ -73,7 +88,12 @@ func TestC36(t *testing.T) {
 	shapes := map[string]bool{}
 	synctest.Test(t, func(t *testing.T) {
 		ctx := context.Background()
-		w := world.New(world.Config{Stack: world.StackSQL})
+		// every read transaction begun is recorded, so that one the code under test fails to release
+		// can be reported AND rolled back by the harness (a leaked transaction would wedge the bubble)
+		var begun []*sql.Tx
+		w := world.New(world.Config{Stack: world.StackSQL, WrapDB: func(db database.Database) database.Database {
+			return &c36DB{Database: db, onBegin: func(tx *sql.Tx) { begun = append(begun, tx) }}
+		}})
 		defer w.Destroy()
 		st := w.Storage
 		must(st.CreateBucket(ctx, c07Bucket))
@@ -117,6 +137,12 @@ func TestC36(t *testing.T) {
 							ranges = append(ranges, storage.ByteRange{Start: &lo, End: &hi})
 						}
 						released = 0
+						begun = begun[:0]
+						defer func() {
+							for _, tx := range begun {
+								_ = tx.Rollback() // no-op (ErrTxDone) when the transaction was released properly
+							}
+						}()
 						_, readers, err := st.GetObject(ctx, c07Bucket, c07Key, ranges, nil)
 						if err != nil || len(readers) != n {
 							run.Report(ev.Violation{Class: "getobject-failed", Summary: fmt.Sprintf("GetObject(%v) err=%v readers=%d", rs, err, len(readers)), Replay: rs})
